@@ -14,9 +14,11 @@ CONSTANTS NSlots,      \* number of slots
 
 VARIABLES slots,       \* [1..NSlots -> value]
           net,         \* sequence of wire messages in flight
-          reg          \* backward rename registry of the (single) process
+          reg,         \* backward rename registry of the (single) process
+          taint        \* [1..NSlots -> [u, s, h]]: words that entered the slot's value through
+                       \* unsafe / safe channels; h: some argument was not regular text
 
-sysvars == <<slots, net, reg>>
+sysvars == <<slots, net, reg, taint>>
 
 Step(op, dst, src, s, a, parts, n, known) ==
   [op |-> op, dst |-> dst, src |-> src, s |-> s, a |-> a, parts |-> parts, n |-> n, known |-> known]
@@ -57,10 +59,13 @@ NewfV(parts, sl) ==
               ELSE V("withNewMessage", txt, <<>>, <<sl[w]>>, <<>>)
   IN WStack(AddSecondaries(base, ErrRefs(parts), sl))
 
+\* an empty format string without arguments
+NoFormat(parts) == \A i \in 1..Len(parts) : parts[i].k = "lit" /\ parts[i].s = <<>>
+
 \* errutil.WrapWithDepthf
 WrapfV(e, parts, sl) ==
   IF IsNil(e) THEN Nil
-  ELSE LET p == IF parts = <<>> THEN e ELSE W1("withPrefix", PartsText(parts, sl), <<>>, e)
+  ELSE LET p == IF NoFormat(parts) THEN e ELSE W1("withPrefix", PartsText(parts, sl), <<>>, e)
        IN WStack(AddSecondaries(p, ErrRefs(parts), sl))
 
 NamedDomain(n) == <<"L_domain", "QT">> \o n \o <<"QT">>
@@ -96,7 +101,7 @@ Build(st, sl, rg) ==
     [] st.op = "WithStack"  -> WStack(e)
     [] st.op = "WithHint"   -> W1("withHint", st.s, <<>>, e)
     [] st.op = "WithDetail" -> W1("withDetail", st.s, <<>>, e)
-    [] st.op = "WithSafeDetails" -> IF st.parts = <<>> THEN e ELSE W1("withSafeDetails", <<>>, <<>>, e)
+    [] st.op = "WithSafeDetails" -> IF NoFormat(st.parts) THEN e ELSE W1("withSafeDetails", <<>>, <<>>, e)
     [] st.op = "WithTelemetry" -> W1("withTelemetry", <<>>, st.a, e)
     [] st.op = "WithDomain" -> W1("withDomain", NamedDomain(st.s), <<>>, e)
     [] st.op = "WithIssueLink" -> W1("withIssueLink", <<>>, st.a, e)
@@ -137,6 +142,89 @@ Build(st, sl, rg) ==
     [] st.op = "Copy"       -> e
     [] st.op = "Clear"      -> Nil
 
+---------------------------------------------------------------------------
+(* Taint: through which channel each word entered (C03, C12).  Unsafe:       *)
+(* format arguments not wrapped in Safe(), messages of non-library errors,   *)
+(* hints, details, paths, tag values, overriding barrier messages, the       *)
+(* message of a Mark reference.  Safe: constant messages and format strings, *)
+(* Safe() arguments, telemetry keys, domains, issue links, tag keys.         *)
+
+\* u: entered through an unsafe channel; s: entered through a safe channel (a word in
+\* s is not a leak, C03); r: safe information that must be retained in reports (C12)
+\* dv: (trace validation only) the recorded value has diverged from the ideal model
+\* through a reported transfer defect; predictions for it are suspended
+NoTaint == [u |-> {}, s |-> {}, r |-> {}, h |-> FALSE, mk |-> FALSE, dv |-> FALSE]
+WordsIn(ts) == WordsOf(ts)
+WordsInAll(a) == UNION {WordsIn(a[i]) : i \in 1..Len(a)}
+Odd(a) == {i \in 1..Len(a) : i % 2 = 1}
+Even(a) == {i \in 1..Len(a) : i % 2 = 0}
+
+RECURSIVE PartsU(_)
+PartsU(ps) == IF ps = <<>> THEN {} ELSE (IF ps[1].k = "arg" THEN WordsIn(ps[1].s) ELSE {}) \cup PartsU(Tail(ps))
+RECURSIVE PartsS(_)
+PartsS(ps) == IF ps = <<>> THEN {}
+              ELSE (IF ps[1].k \in {"lit", "safe"} THEN WordsIn(ps[1].s) ELSE {}) \cup PartsS(Tail(ps))
+RECURSIVE PartsAllStr(_)
+PartsAllStr(ps) == IF ps = <<>> THEN <<>>
+                   ELSE (IF ps[1].k \in {"lit", "safe", "arg"} THEN <<ps[1].s>> ELSE <<>>) \o PartsAllStr(Tail(ps))
+
+SUnsafeOps == {"GoNew", "PkgNew", "ULeaf", "WithHint", "WithDetail", "HandledWithMessage",
+               "HandledInDomainWithMessage", "PkgWithMessage", "PkgWrap", "UWrap", "GoWrap", "GoWrap2",
+               "Unimplemented"}
+SSafeOps   == {"New", "Wrap", "WithMessage", "WithDomain", "HandledInDomain", "OsSyscallError"}
+
+\* words the step itself introduces
+StepU(st, sl) ==
+  (IF st.op \in SUnsafeOps THEN WordsIn(st.s) ELSE {})
+  \cup PartsU(st.parts)
+  \cup (IF st.op \in {"GoWrap", "ULeaf"} THEN WordsInAll(st.a) ELSE {})
+  \cup (IF st.op = "WithContextTags" THEN UNION {WordsIn(st.a[i]) : i \in Even(st.a)} ELSE {})
+  \cup (IF st.op \in {"OsPathError", "OsLinkError"} THEN UNION {WordsIn(st.a[i]) : i \in 2..Len(st.a)} ELSE {})
+  \cup (IF st.op = "Mark" /\ Len(st.src) = 2 /\ ~IsNil(sl[st.src[1]]) /\ ~IsNil(sl[st.src[2]])
+        THEN WordsIn(Text(sl[st.src[2]])) ELSE {})
+StepS(st) ==
+  (IF st.op \in SSafeOps THEN WordsIn(st.s) ELSE {})
+  \cup PartsS(st.parts)
+  \cup (IF st.op \in {"WithTelemetry", "WithIssueLink", "Unimplemented", "HandledInDomainWithMessage"}
+        THEN WordsInAll(st.a) ELSE {})
+  \cup (IF st.op = "WithContextTags" THEN UNION {WordsIn(st.a[i]) : i \in Odd(st.a)} ELSE {})
+  \cup (IF st.op \in {"OsPathError", "OsLinkError"} /\ Len(st.a) >= 1 THEN WordsIn(st.a[1]) ELSE {})
+\* some string argument of the step is not regular text (C01, C09, C10 quantify over regular text)
+StepH(st) ==
+  LET strs == (IF st.s = <<>> THEN <<>> ELSE <<st.s>>) \o FilterNonEmpty(st.a) \o FilterNonEmpty(PartsAllStr(st.parts))
+  IN \E i \in 1..Len(strs) : ~Regular(strs[i]) /\ strs[i] \notin {<<SP>>, <<SEP>>}
+
+\* some string argument contains redaction marker characters
+StepMk(st) ==
+  LET strs == <<st.s>> \o st.a \o PartsAllStr(st.parts)
+  IN \E i \in 1..Len(strs) : \E j \in 1..Len(strs[i]) : strs[i][j] \in {"MO", "MC", "RM"}
+
+\* slots whose values flow into the result
+RECURSIVE PartRefs(_)
+PartRefs(ps) == IF ps = <<>> THEN {} ELSE (IF ps[1].k \in {"err", "w"} THEN {ps[1].r} ELSE {}) \cup PartRefs(Tail(ps))
+\* (of a Mark reference only the message is kept, as an unsafe string)
+\* (error arguments become secondary errors in Newf / Wrapf and friends only)
+Sources(st) == (IF st.op = "Mark" THEN {st.src[1]} ELSE SeqToSet(st.src))
+               \cup (IF st.op = "WithSafeDetails" THEN {} ELSE PartRefs(st.parts))
+
+\* safe words that reach the result without having to be retained by it: the
+\* domains in the type marks of a Mark reference (printed as safe by withMark);
+\* the safe parts of an error formatted into a safe-details string
+ExtraS(st, sl, tn) ==
+  (IF st.op = "Mark" /\ Len(st.src) = 2 /\ ~IsNil(sl[st.src[2]])
+   THEN UNION {WordsIn(Ext(Chain(sl[st.src[2]])[i])) : i \in 1..Len(Chain(sl[st.src[2]]))} ELSE {})
+  \cup (IF st.op = "WithSafeDetails" THEN UNION {tn[i].s : i \in PartRefs(st.parts)} ELSE {})
+
+TaintOf(st, sl, tn, res) ==
+  IF IsNil(res) \/ st.op \in {"Clear", "DecodeFault", "DecodeFuzz"} THEN NoTaint
+  ELSE LET src == Sources(st) IN
+       [u |-> StepU(st, sl) \cup UNION {tn[i].u : i \in src},
+        s |-> StepS(st) \cup ExtraS(st, sl, tn) \cup UNION {tn[i].s : i \in src},
+        r |-> StepS(st) \cup UNION {tn[i].r : i \in src},
+        h |-> StepH(st) \/ \E i \in src : tn[i].h,
+        mk |-> StepMk(st) \/ \E i \in src : tn[i].mk,
+        dv |-> \E i \in src : tn[i].dv]
+
 ConstructorOps ==
   {"GoNew", "Sentinel", "CtxDeadline", "Errno", "New", "Newf", "PkgNew", "Unimplemented",
    "AssertionFailedf", "ULeaf", "Wrap", "Wrapf", "WithMessage", "WithStack", "WithHint",
@@ -161,11 +249,13 @@ Init ==
   /\ slots = [i \in 1..NSlots |-> Nil]
   /\ net = <<>>
   /\ reg = <<>>
+  /\ taint = [i \in 1..NSlots |-> NoTaint]
 
 \* the one action schema: perform step st
 Do(st) ==
   /\ Enabled(st, slots)
   /\ slots' = [slots EXCEPT ![st.dst] = Build(st, slots, reg)]
+  /\ taint' = [taint EXCEPT ![st.dst] = TaintOf(st, slots, taint, Build(st, slots, reg))]
   /\ UNCHANGED <<net, reg>>
 
 ---------------------------------------------------------------------------
